@@ -191,6 +191,14 @@ def run(ctx):
     for i in range(ctx.n(260, 5000)):
         sigma = gen.rand_alphabet(rng)
         t = rand_tree(rng, sigma, rng.choice([1, 1, 2, 2, 3]))
+        for _ in range(20):
+            # the model evaluates the whole tree without minimising inner nodes: keep the full product small
+            bound = 1
+            for dd in leaves(t):
+                bound *= len(dd["states"]) + 1
+            if bound <= 700:
+                break
+            t = rand_tree(rng, sigma, rng.choice([1, 2, 2]))
         if t[0] == "leaf":
             t = ("bin", rng.choice(OPS), "method", dict(retain_names=False, minify=False), t,
                  ("leaf", gen.rand_dfa_def(rng, nmax=5, alphabet=sigma)))
